@@ -8,7 +8,7 @@ src = open(os.path.join(ROOT, "tools", "seed_notes.py")).read()
 ns = {}
 exec(src[src.index("NOTES = {"):src.index("rows = []")], ns)
 NOTES = ns["NOTES"]
-base = open("/tmp/seed/PROMPT.txt").read()
+base = open(os.path.join(ROOT, "tools", "seed_prompt_base.txt")).read()  # the round-independent part of every prompt
 props = [json.loads(l) for l in open(os.path.join(ROOT, "properties.jsonl"))]
 EXTRA = """
 
